@@ -466,7 +466,7 @@ func (a *cloneAnalysis) subject(g *objGroup) bool {
 	return false
 }
 
-func runCloneRules(r *Run, clones []cloneFn, rulePrefix string, wantAlias bool, aliasOnly map[string]bool) {
+func runCloneRules(r *Run, clones []cloneFn, rulePrefix string, wantAlias bool, subjectTypes map[*types.Named]bool) {
 	p := r.P
 	ms := newMutSummary(p, false)
 	nFields := 0
@@ -492,6 +492,9 @@ func runCloneRules(r *Run, clones []cloneFn, rulePrefix string, wantAlias bool, 
 		for _, g := range a.groups() {
 			if g.T == nil || !a.subject(g) {
 				continue
+			}
+			if subjectTypes != nil && !subjectTypes[g.T] {
+				continue // a helper object (e.g. the engine value the copy is delegated to), not part of the copy
 			}
 			st := g.T.Underlying().(*types.Struct)
 			for i := 0; i < st.NumFields(); i++ {
@@ -654,14 +657,77 @@ func ruleCloneStyle(r *Run) {
 }
 
 func ruleCopyTable(r *Run) {
-	var sel []cloneFn
-	for _, c := range discoverClones(r.P, pkgDoc) {
+	p := r.P
+	all := discoverClones(p, pkgDoc)
+	byFn := map[*ssa.Function]cloneFn{}
+	for _, c := range all {
+		byFn[c.Fn] = c
+	}
+	var entry []cloneFn
+	for _, c := range all {
 		if c.Fn.Signature.Recv() != nil && typeIs(c.Fn.Signature.Recv().Type(), pkgDoc, "Table") {
+			entry = append(entry, c)
+		}
+	}
+	r.Min("table_copy_functions", len(entry), 1)
+	// CopyTable may delegate to other clone functions (today: the template engine's cloneTable and,
+	// through it, the clone function of every struct below Table).  The obligations follow the
+	// delegation: every clone function statically reachable from the entry is held to the same
+	// rules (complete, alias-free), restricted to the struct types reachable from Table.
+	sel := append([]cloneFn{}, entry...)
+	seen := map[*ssa.Function]bool{}
+	for _, c := range entry {
+		seen[c.Fn] = true
+	}
+	var roots []*ssa.Function
+	for _, c := range entry {
+		roots = append(roots, c.Fn)
+	}
+	reach := p.staticReach(roots...)
+	for _, fn := range sortedFuncs(reach) {
+		if c, ok := byFn[fn]; ok && !seen[fn] {
+			seen[fn] = true
 			sel = append(sel, c)
 		}
 	}
-	r.Min("table_copy_functions", len(sel), 1)
-	runCloneRules(r, sel, "copy", true, nil)
+	r.Count("copy_delegate_clone_functions", len(sel)-len(entry))
+	tbl := p.Named(pkgDoc, "Table")
+	if tbl == nil {
+		r.Unresolved("document.Table")
+		return
+	}
+	runCloneRules(r, sel, "copy", true, structsBelow(p, tbl))
+}
+
+// structsBelow: module struct types reachable from t through fields (pointers, slices, arrays,
+// maps), t included.
+func structsBelow(p *Program, t *types.Named) map[*types.Named]bool {
+	out := map[*types.Named]bool{}
+	var visit func(tt types.Type)
+	visit = func(tt types.Type) {
+		switch x := tt.(type) {
+		case *types.Pointer:
+			visit(x.Elem())
+		case *types.Slice:
+			visit(x.Elem())
+		case *types.Array:
+			visit(x.Elem())
+		case *types.Map:
+			visit(x.Elem())
+		case *types.Named:
+			n := isModStruct(p, x)
+			if n == nil || out[n] {
+				return
+			}
+			out[n] = true
+			st := n.Underlying().(*types.Struct)
+			for i := 0; i < st.NumFields(); i++ {
+				visit(st.Field(i).Type())
+			}
+		}
+	}
+	visit(t)
+	return out
 }
 
 // ruleClonePure (C17): template clone functions never write through their source.
